@@ -289,7 +289,7 @@ class Engine:
             if h is None:
                 raise OutOfSubset(f"truthiness of object {v.kind}")
             return h
-        if isinstance(v, (Meth, Closure)):
+        if isinstance(v, Closure):
             return True
         raise OutOfSubset(f"truthiness of {type(v).__name__}")
 
